@@ -97,7 +97,7 @@ class vxlan (packet_base):
 
         self.parsed = True
 
-        self.next = ethernet(raw=raw[vxlan.MIN_LEN:])
+        self.next = ethernet(raw=raw[vxlan.MIN_LEN:], prev=self)
 
     def hdr (self, payload):
         flags = 0
